@@ -423,7 +423,16 @@ func (x *runner) compCase() {
 				allOK = false
 			}
 		}
-		if allOK && kind != 1 {
+		// TokensForTuple / TokensForObject include the element tokens VERBATIM and document that no
+		// validation is done: a first element that begins with the identifier `for` makes the
+		// constructor read as a for expression (a property of the language, not of the generator;
+		// the caller has to parenthesise). Outside what the property quantifies over: counted only.
+		forFirst := kind == 0 && len(parts) > 0 && len(parts[0]) > 0 &&
+			parts[0][0].Type == hclsyntax.TokenIdent && string(parts[0][0].Bytes) == "for"
+		if forFirst {
+			x.rep.Hist("compose:first-element-begins-with-for(outside the quantifier)")
+		}
+		if allOK && kind != 1 && !forFirst {
 			x.fail(verdict{"value-readback-parse-error", "composed: " + d.Error()}, string(toks.Bytes()), nil)
 		}
 	}
